@@ -24,7 +24,7 @@ ASSUMPTIONS = ['helmert_exact (self-validated each shard)', 'Julian year = 365.2
 N = {'quick': 1500, 'thorough': 25000}
 SHARDS = {'quick': 16, 'thorough': 32}
 REQUIRED_COUNTERS = ['single_calls_at_reference_epoch', 'unjudged_calls_before_a_judged_one', 'wrapper_calls_with_covariance', 'same_label_sequences', 'shipped_sets_calls', 'random_sets_calls', 'reference_epoch_cases', 'before_reference_epoch', 'leap_day_cases',
-                     'wrapper_roundtrips', 'wrapper_identity', 'negation_roundtrips', 'vcv_judged']
+                     'wrapper_roundtrips', 'wrapper_identity', 'negation_roundtrips', 'vcv_judged', 'sets_moved_in_time_before_use', 'random_sets_with_large_parameters']
 D0 = datetime.date(1980, 1, 1).toordinal()
 D1 = datetime.date(2060, 12, 31).toordinal()
 
@@ -51,6 +51,9 @@ def rand_epoch(rnd, ref):
     return d, 'random'
 
 
+LARGE = [0]
+
+
 def rand_dated_set(ns, rnd, with_sd):
     C = ns.constants
     kw = dict(tx=rnd.uniform(-1, 1), ty=rnd.uniform(-1, 1), tz=rnd.uniform(-1, 1), sc=rnd.uniform(-0.1, 0.1),
@@ -58,6 +61,12 @@ def rand_dated_set(ns, rnd, with_sd):
               d_tx=rnd.uniform(-0.01, 0.01), d_ty=rnd.uniform(-0.01, 0.01), d_tz=rnd.uniform(-0.01, 0.01),
               d_sc=rnd.uniform(-0.001, 0.001), d_rx=rnd.uniform(-0.002, 0.002), d_ry=rnd.uniform(-0.002, 0.002),
               d_rz=rnd.uniform(-0.002, 0.002))
+    if rnd.random() < 0.25:
+        # a classical-datum or site-grid link given an epoch and rates: parameters of the size C06 allows (hundreds of metres,
+        # tens of ppm, tens of arc-seconds)
+        kw.update(tx=rnd.uniform(-1000, 1000), ty=rnd.uniform(-1000, 1000), tz=rnd.uniform(-1000, 1000), sc=rnd.uniform(-100, 100),
+                  rx=rnd.uniform(-50, 50), ry=rnd.uniform(-50, 50), rz=rnd.uniform(-50, 50))
+        LARGE[0] += 1
     if rnd.random() < 0.5:
         kw = {k: round(v, 8) for k, v in kw.items()}
     if rnd.random() < 0.5:
@@ -129,6 +138,16 @@ def run_unjudged(ns, ctx, case, t):
             core.unjudged(ctx, getattr(ns.transform, name), *args)
 
 
+def maybe_via(rnd, case, ref):
+    """In a share of the cases the set is first moved to another date (set + date) and that set is handed to conform14.  The
+    uncertainties of a moved set are those at its new date, so these cases carry no covariance."""
+    if rnd.random() < 0.2:
+        ep, _ = rand_epoch(rnd, ref)
+        case['via'] = str(ep)
+        case['vcv'], case['vkind'] = None, 'none'
+        case.pop('vrep', None)
+
+
 def judge(ns, ctx, case):
     C, T = ns.constants, ns.transform
     t = set_from_spec(ns, case['set'])
@@ -157,6 +176,20 @@ def judge(ns, ctx, case):
         sd_before = PRISTINE.get(case['set'])
     else:
         sd_before = case['set'].get('sd')
+    tt = t
+    if case.get('via'):
+        # the set handed over is one that was itself obtained by moving the set in time (set + date): it is the same
+        # time-dependent set, referenced to that date (one more rounding of its parameters to 8 decimals: < 0.5 um)
+        y1, m1, d1 = (int(v) for v in case['via'].split('-'))
+        via = datetime.date(y1, m1, d1)
+        try:
+            tt = t + via
+        except Exception as e:
+            ctx.violation('__add__:exception', case, {'exception': repr(e)})
+            return
+        ctx.count('sets_moved_in_time_before_use')
+        if getattr(tt, 'ref_epoch', None) != via:
+            ctx.violation('__add__:reference-epoch-not-moved', case, {'ref_epoch': str(getattr(tt, 'ref_epoch', None)), 'moved_to': str(via)})
     try:
         Vc = V
         if V is not None and case.get('vrep'):
@@ -167,7 +200,7 @@ def judge(ns, ctx, case):
         if case.get('shape'):
             ctx.count('call_shape:' + case['shape'])
         r = core.shaped_call(T.conform14, ['x', 'y', 'z', 'to_epoch', 'trans', 'vcv'],
-                             list(core.rep_values(case.get('rep'), x, yy, z)) + [ep, t, Vc], case.get('shape'),
+                             list(core.rep_values(case.get('rep'), x, yy, z)) + [ep, tt, Vc], case.get('shape'),
                              omit=('vcv',) if V is None else ())
     except Exception as e:
         ctx.violation('conform14:exception', case, {'exception': repr(e)})
@@ -179,7 +212,7 @@ def judge(ns, ctx, case):
     if ep == t.ref_epoch:
         r7 = T.conform7(x, yy, z, t)
         d7 = math.dist(r[:3], r7[:3])
-        if d7 > (0.0 if shipped else 2e-6):
+        if d7 > (0.0 if shipped and not case.get('via') else 2e-6):
             ctx.violation('conform14:differs-from-conform7-at-reference-epoch', case, {'conform14': list(r[:3]), 'conform7': list(r7[:3])})
     # set then negated set at the same epoch
     try:
@@ -292,6 +325,7 @@ def run_shard(spec, ctx):
             case = {'set': name, 'epoch': str(ep), 'eclass': cls, 'xyz': c06.rand_point(rnd, 1e7),
                     'vcv': None if V is None else V.tolist(), 'vkind': kind}
             c06.deliver_choice(rnd, case)
+            maybe_via(rnd, case, t.ref_epoch)
             if k < 2:
                 ctx.sample(case)
             k += 1
@@ -306,9 +340,13 @@ def run_shard(spec, ctx):
         case = {'set': spec_of(t), 'epoch': str(ep), 'eclass': cls, 'xyz': c06.rand_point(rnd, 1e7),
                 'vcv': None if V is None else V.tolist(), 'vkind': kind}
         c06.deliver_choice(rnd, case)
+        maybe_via(rnd, case, t.ref_epoch)
         if rnd.random() < 0.03:
             case['before'] = [rnd.randrange(1000) for _ in range(rnd.choice([1, 2]))]
         judge(ns, ctx, case)
+        if LARGE[0]:
+            ctx.count('random_sets_with_large_parameters', LARGE[0])
+            LARGE[0] = 0
         ctx.bucket('rate-pattern', ''.join('1' if getattr(t, 'd_' + p) else '0' for p in hx.P7))
         if i % 3 == 0:
             # same labels, same reference epoch, same target epoch, other parameters: back to back
